@@ -67,10 +67,25 @@ func rulesC13(c *Ctx) {
 	c.Need(pingV >= 0 && closeV >= 0 && errVar != nil, "keepalive loop: session.Ping and session.Close")
 
 	c.Rule("R-C13-1", "the miss counter is a correct failure detector: reset on every answered ping, incremented once per failed ping, and Close is reached only when the counter is not below the (normalised) threshold; method-not-found ends keep-alive without closing", func() {
+		// the miss counter: the incremented variable that a branch condition compares (a second tally that is only
+		// logged decides nothing)
 		var ctr types.Object
 		for _, w := range Writes(loop.Body, false) {
-			if _, ok := w.Stmt.(*ast.IncDecStmt); ok {
-				ctr = loop.ObjOf(w.LHS)
+			if _, ok := w.Stmt.(*ast.IncDecStmt); !ok {
+				continue
+			}
+			o := loop.ObjOf(w.LHS)
+			decides := false
+			for _, cv := range g.condVertices() {
+				ast.Inspect(g.Node(cv-1), func(n ast.Node) bool {
+					if id, ok := n.(*ast.Ident); ok && loop.ObjOf(id) == o && o != nil {
+						decides = true
+					}
+					return !decides
+				})
+			}
+			if decides || ctr == nil {
+				ctr = o
 			}
 		}
 		c.Need(ctr != nil, "keepalive loop: miss counter")
@@ -505,7 +520,7 @@ func rulesC13(c *Ctx) {
 				}
 			}
 			if trueCase {
-				for _, e := range cc.List {
+				for _, e := range caseValues(cc) {
 					if v, isC := tr.ConstInt(e); isC {
 						got[v] = true
 					}
@@ -710,7 +725,8 @@ func rulesC14(c *Ctx) {
 			if !ok {
 				return
 			}
-			s, isS := ast.Unparen(rs.X).(*ast.SelectorExpr)
+			// (a local that is nil unless it was given opts.Scopes is the same loop: over nothing when there are no options)
+			s, isS := ast.Unparen(v.valueOf(rs.X)).(*ast.SelectorExpr)
 			if !isS || s.Sel.Name != "Scopes" || v.ObjOf(s.X) != types.Object(optsParam) {
 				return
 			}
@@ -720,9 +736,15 @@ func rulesC14(c *Ctx) {
 				if !isIf {
 					continue
 				}
-				in, neg := stripNot(ifs.Cond)
-				ce, isC := in.(*ast.CallExpr)
-				if !neg || !isC || v.Callee(ce) == nil || v.Callee(ce).Name() != "Contains" || len(ce.Args) != 2 {
+				// (one of the alternatives of the condition: `x == nil || !Contains(…)` refuses at least as often)
+				var ce *ast.CallExpr
+				for _, leaf := range orOperands(ifs.Cond) {
+					in, neg := stripNot(leaf)
+					if cc, isC := in.(*ast.CallExpr); neg && isC && v.Callee(cc) != nil && v.Callee(cc).Name() == "Contains" && len(cc.Args) == 2 {
+						ce = cc
+					}
+				}
+				if ce == nil {
 					continue
 				}
 				a0, isSel := ast.Unparen(ce.Args[0]).(*ast.SelectorExpr)
@@ -782,7 +804,7 @@ func rulesC14(c *Ctx) {
 		okTok := false
 		for _, call := range v.AllCalls(v.Body, false) {
 			if v.ObjOf(call.Fun) == types.Object(verifierParam) && len(call.Args) == 3 {
-				if ix, ok := ast.Unparen(call.Args[1]).(*ast.IndexExpr); ok {
+				if ix, ok := ast.Unparen(v.valueOf(call.Args[1])).(*ast.IndexExpr); ok {
 					if k, isC := v.ConstInt(ix.Index); isC && k == 1 && v.ObjOf(ix.X) == fieldsVar {
 						okTok = true
 					}
@@ -884,7 +906,7 @@ func rulesC14(c *Ctx) {
 					nChal++
 					// the value is "Bearer " + the joined parameter list, and it is added before the status line is written
 					okVal := false
-					if b, isB := ast.Unparen(call.Args[1]).(*ast.BinaryExpr); isB && b.Op == token.ADD {
+					if b, isB := ast.Unparen(hl.valueOf(call.Args[1])).(*ast.BinaryExpr); isB && b.Op == token.ADD {
 						if pre, isC := hl.ConstString(b.X); isC && pre == "Bearer " {
 							if jc, isCall := ast.Unparen(b.Y).(*ast.CallExpr); isCall && hl.Callee(jc) != nil && hl.Callee(jc).FullName() == "strings.Join" {
 								okVal = true
